@@ -139,12 +139,15 @@ struct case_t
 };
 
 // ---- generation ----------------------------------------------------------------------------------------------------
-// relative grid steps of the scalar features (distinct values differ by >= q*max|x|); "--grid fine|design" are experiments
-std::vector<double> g_grid{0.01, 0.02, 0.05, 0.1, 0.25};
+// relative grid steps of the scalar features: distinct values of one feature differ by >= q*max|x| (q >= 5e-3).
+// Measured (200 000 cases, -O2): worst |score - brute force| of hinge/affine = 0.2% of the 1e-7 tolerance for q >= 1e-2, 16% for
+// q >= 1e-3 ("--grid fine", an experiment, not used by the check), and FALSE ALARMS (434 of 200 000) for an absolute spacing
+// of 1e-3 at |x| = 10 (q = 1e-4): the raw-moment RSS of hinge/affine loses ~1/q^2 digits; conditioning is not what C10 is about.
+std::vector<double> g_grid{0.005, 0.01, 0.02, 0.05, 0.1, 0.25};
 
 void gen_scalar_feature(vf::rng_t& rng, store_t& st, double pmiss)
 {
-    // values live on a grid k*step, |x| <= X <= 10, distinct values differ by >= 1e-2*X (see the header of main()):
+    // values live on a grid k*step, |x| <= X <= 10, distinct values differ by >= 5e-3*X (see g_grid):
     const double X    = rng.pick(std::vector<double>{0.5, 1.0, 3.0, 10.0});
     const double q    = rng.pick(g_grid);
     const double step = X * q;
@@ -1843,10 +1846,6 @@ int main(int argc, char** argv)
     {
         g_grid = {0.001, 0.002, 0.005, 0.01, 0.05, 0.25};
     }
-    else if (args.get("grid") == "design")
-    {
-        g_grid = {0.0001, 0.0002, 0.001, 0.01, 0.05, 0.25};
-    }
     if (args.mode == "algebra")
     {
         return vf::run(args, "C10",
@@ -1859,7 +1858,7 @@ int main(int argc, char** argv)
                        [&](vf::ctx_t& c) { run_algebra(c, multi); });
     }
     return vf::run(args, "C10",
-                   "case = one random dataset (as in mode algebra; scalar values on a grid with |x| <= 10 and distinct values >= 1e-2*max|x| "
+                   "case = one random dataset (as in mode algebra; scalar values on a grid with |x| <= 10 and distinct values >= 5e-3*max|x| "
                    "apart) + gradient tensor + sample list; stump, hinge, affine, dense-table, dstep-table fitted with the RSS criterion "
                    "and compared with the brute-force minimum RSS and with the RSS of their predictions; non-trivial: some winner is not "
                    "the first feature of its kind and the winning scalar feature has >= 3 distinct thresholds (categorical-only datasets: "
